@@ -92,7 +92,10 @@ class HierDictDocument(DictDocument):
             if self.ignore_wrappers:
                 doc = doc.get(class_name, None)
 
-            result_message = self._doc_to_object(ctx, body_class, doc,
+            if doc is None:
+                result_message = [None] * len(body_class._type_info)
+            else:
+                result_message = self._doc_to_object(ctx, body_class, doc,
                                                                  self.validator)
             ctx.in_object = result_message
 
